@@ -2,6 +2,7 @@ package scen
 
 import (
 	"context"
+	"encoding/json"
 	"fmt"
 	"os"
 	"path/filepath"
@@ -13,6 +14,7 @@ import (
 	bs "github.com/danthegoodman1/bloomsearch"
 
 	"verif/hstore"
+	"verif/refmodel"
 	"verif/vapi"
 	"verif/vos"
 )
@@ -24,9 +26,18 @@ type c14p struct {
 	store  string // mem-posix | mem-object | fs
 	ingest bool   // a task ingests and flushes one more batch
 	merge  bool   // a task merges
+	// noquery: no concurrent query task; only the state after all tasks finished is examined
+	// (preemption-bounded: overlapping MetaStore commits of a flush and a merge)
+	noquery bool
 }
 
-func (p c14p) name() string { return fmt.Sprintf("%s-ingest_%v-merge_%v", p.store, p.ingest, p.merge) }
+func (p c14p) name() string {
+	n := fmt.Sprintf("%s-ingest_%v-merge_%v", p.store, p.ingest, p.merge)
+	if p.noquery {
+		n += "-noquery"
+	}
+	return n
+}
 
 func init() {
 	if vapi.Controlled {
@@ -118,8 +129,13 @@ func c14Root(p c14p) func() {
 		}
 		var got []string
 		var qerr error
-		wg.Add(1)
+		if !p.noquery {
+			wg.Add(1)
+		}
 		go func() {
+			if p.noquery {
+				return
+			}
 			defer wg.Done()
 			vapi.Log("call Query")
 			res, err := eng.Query(ctx, nil)
@@ -143,7 +159,7 @@ func c14Root(p c14p) func() {
 				vapi.Fail("C14[%s]: query returned row %s which was never ingested", p.store, id)
 			}
 		}
-		if qerr == nil {
+		if qerr == nil && !p.noquery {
 			must := []string{"a0", "a1", "b0", "c0", "c1"}
 			if ai := logIndex(log, "ack n0"); ai >= 0 && ai < qi {
 				must = append(must, "n0")
@@ -177,6 +193,47 @@ func c14Root(p c14p) func() {
 				vapi.Fail("C14[%s]%s: query finished with Err()==nil but rows %v were returned more than once", p.store, tag, dups)
 			}
 		}
+		// once every task has finished, the stores must hold exactly what was acknowledged (a
+		// commit lost or applied twice by overlapping MetaStore updates shows here even when the
+		// concurrent query missed it): the files the MetaStore references are read directly
+		if md, ok := dataStore.(*hstore.MemData); ok {
+			final := map[string]int{}
+			complete := true
+			for f, err := range metaStore.GetMaybeFilesForQuery(ctx, nil) {
+				if err != nil {
+					complete = false
+					break
+				}
+				b, ok := md.BytesNoLock(string(f.PointerBytes))
+				if !ok {
+					vapi.Fail("C14[%s]: after all tasks finished the MetaStore references %s which the DataStore no longer holds", p.store, f.PointerBytes)
+					continue
+				}
+				pf, err := refmodel.ParseFile(b)
+				if err != nil {
+					complete = false
+					continue
+				}
+				for _, blk := range pf.Blocks {
+					for _, rb := range blk.Rows {
+						var m map[string]any
+						if json.Unmarshal(rb, &m) == nil {
+							final[fmt.Sprint(m["id"])]++
+						}
+					}
+				}
+			}
+			must := []string{"a0", "a1", "b0", "c0", "c1"}
+			if logIndex(log, "ack n0") >= 0 {
+				must = append(must, "n0")
+			}
+			for _, id := range must {
+				if complete && final[id] != 1 {
+					vapi.Fail("C14[%s]: after all tasks finished the referenced files hold acknowledged row %s %d times (all rows: %v)", p.store, id, final[id], final)
+					break
+				}
+			}
+		}
 		eng.Stop(ctx)
 	}
 }
@@ -190,15 +247,21 @@ var c14FixtureSetup = buildFixture("c14", [][]map[string]any{
 func init() {
 	setup := c14FixtureSetup
 	Registry["C14"] = func(tier string) []Scenario {
-		ps := []c14p{{"mem-posix", false, true}, {"mem-object", true, true}, {"fs", false, true}, {"mem-posix", true, false}}
+		ps := []c14p{{"mem-posix", false, true, false}, {"mem-object", true, true, false}, {"fs", false, true, false}, {"mem-posix", true, false, false}, {"mem-posix", true, true, true}}
 		if tier == "thorough" {
-			ps = append(ps, c14p{"mem-posix", true, true}, c14p{"fs", true, true}, c14p{"fs", true, false}, c14p{"mem-object", false, true})
+			ps = append(ps, c14p{"mem-posix", true, true, false}, c14p{"fs", true, true, false}, c14p{"fs", true, false, false}, c14p{"mem-object", false, true, false}, c14p{"mem-object", true, true, true})
 		}
 		var out []Scenario
 		for _, p := range ps {
 			s := Scenario{Prop: "C14", Name: p.name(), Root: c14Root(p), Setup: setup, Horizon: time.Second, Sched: 2, DelayBound: true}
 			if tier == "thorough" {
 				s.Sched = 3
+			}
+			if p.noquery {
+				s.DelayBound, s.Sched = false, 1
+				if tier == "thorough" {
+					s.Sched = 2
+				}
 			}
 			out = append(out, s)
 		}
